@@ -9,28 +9,47 @@ PROP = {
         "Xt.Props.Json.json_roundtrip",
         "Xt.Props.Json.json_roundtrip_floats",
         "Xt.Props.Json.json_spellings_partial",
+        # JSON <-> MessagePack end to end (composition of the Json, MsgpackCodec and transcoder models)
+        "Xt.Props.Fidelity.json_to_msgpack_fidelity",
+        "Xt.Props.Fidelity.json_to_msgpack_fidelity_of_wf",
+        "Xt.Props.Fidelity.json_to_msgpack_fidelity_documents",
+        "Xt.Props.Fidelity.json_to_msgpack_fidelity_floats",
+        "Xt.Props.Fidelity.msgpack_to_json_fidelity",
+        "Xt.Props.Fidelity.msgpack_to_json_fidelity_floatfree",
+        "Xt.Props.Fidelity.msgpack_to_json_output",
+        "Xt.Props.Fidelity.non_minimal_spellings_irrelevant",
+        "Xt.Props.Fidelity.int_width_irrelevant",
+        "Xt.Props.Fidelity.unrepresentable_is_error",
+        "Xt.Props.Fidelity.bin_value_becomes_array",
+        "Xt.Props.Fidelity.failing_document_streamed",
+        "Xt.Props.Fidelity.minus_zero_is_float",
+        "Xt.Props.Fidelity.five_stays_integer",
+        "Xt.Props.Fidelity.bridge_refines_transcoder",
+        "Xt.Props.Fidelity.m2j_slice_answer_eq_reader",
         "toml_reorder_groups", "toml_reorder_stable", "toml_reorder_keys_perm",
         "toml_reorder_idempotent", "toml_written_eq_reorder_partial", "toml_k4_counterexample",
     ],
     "trusted_base": [
         KERNEL, CORR, HARNESS,
         "modelled exactly and checked by correspondence: the entry order of xt's TOML output (toml::Value's three serializer passes + toml_edit's section layout) against the permitted two-group reordering",
-        "NOT modelled (parameters with sampled hypotheses): serde_json / serde_yaml / toml / rmp_serde readers and writers, float text<->binary64 conversion; their round-trip behaviour is observed through xt's API with each target crate's own deserializer as the independent reader",
+        "modelled exactly and checked by correspondence (engines j2m / m2j, byte-exact on float-free input, float tokens masked otherwise): the JSON -> MessagePack and MessagePack -> JSON translations end to end, as the composition source loop -> what serde_json / rmp_serde drive xt's visitor with -> flatten -> rmp_serde's / serde_json's Serializer over the op stream (incl. serde_json's map-key rules and serialize_bytes -> array of numbers, rmp_serde's write_sint of a non-negative number) -> framing",
+        "NOT modelled (parameters with sampled hypotheses): serde_yaml / toml readers and writers, float text<->binary64 conversion (FloatIO.parse / fmt64 / fmt32); their round-trip behaviour is observed through xt's API with each target crate's own deserializer as the independent reader",
     ],
     "assumptions": [
         "each format crate's own reader (serde_json, rmp_serde, serde_yaml, toml) used by the harness to read xt's output is a faithful independent reader of that format",
         "the harness's spellers produce the intended value (self-checked on every case by reading the spelled text back with the source crate, without xt; mismatches are dropped and counted)",
     ],
-    "rule": "implementation-level: type-directed documents over the common data model (nasty string / integer / float pools, depth to 64) x 16 (source,target) pairs x spellings (JSON escapes/whitespace/exponents, MessagePack non-minimal widths, YAML block/flow/quoting, TOML inline/sections) x slice/reader x explicit/detected; output read with the target crate's own deserializer and compared with the generated value (TOML: up to the permitted reordering). Correspondence: entry order of TOML output for every arrangement of <=3 entries over 8 value shapes at the root, one level down and inside an array of tables, plus random trees. Non-trivial = the translation succeeded (statement) / the document has >1 entry or a non-scalar entry (order cases); distinct = distinct input text.",
+    "rule": "implementation-level: type-directed documents over the common data model (nasty string / integer / float pools, depth to 64) x 16 (source,target) pairs x spellings (JSON escapes/whitespace/exponents, MessagePack non-minimal widths, YAML block/flow/quoting, TOML inline/sections) x slice/reader x explicit/detected; output read with the target crate's own deserializer and compared with the generated value (TOML: up to the permitted reordering). Correspondence: (a) JSON<->MessagePack end to end, both supply modes: generated documents at every spelling level, nasty strings / integers, every marker byte as value and as key, all 8 integer markers x boundary payloads (non-negative numbers in signed markers), 13 key kinds x 3 positions, sizes 0..65536 at every header-width boundary, nesting 124..131 and 1021..1026, multi-document streams with every separator, mutated and every-truncation inputs; (b) entry order of TOML output for every arrangement of <=3 entries over 8 value shapes at the root, one level down and inside an array of tables, plus random trees. Non-trivial = the translation succeeded (statement) / the document has >1 entry or a non-scalar entry (order cases); distinct = distinct input text.",
     "hypotheses": [
+        "FloatIO.RoundTrip (ryu's text of a finite double reads back through serde_json as that double, as a float literal) -- sampled in the json engine (ExtFloat samples + jsonnum) and end to end by the m2j/j2m fidelity statements; FloatIO.NoNewline likewise; float-free statements need none",
         "ExtJson/ExtYaml/ExtToml/ExtMsgpack.RoundTrip -- sampled as read_B(xt(A->B)(spell_A(v))) == v",
         "ExtFloat.RoundTrip (after fix D1) -- sampled on boundary and random binary64 bit patterns",
     ],
-    "explanation": "Partial: the TOML-order theorems are proved outright; faithfulness of the streaming transcoder / value path and the MessagePack and JSON codecs are proved in the C11 / C18 files; YAML and TOML surface syntax and float conversion are sampled hypotheses, not theorems.",
+    "explanation": "Partial: for the pairs JSON->MessagePack and MessagePack->JSON the fidelity theorem is proved end to end on the composed model (for every input; floats under the named FloatIO hypotheses), with non_minimal_spellings_irrelevant and unrepresentable_is_error; the TOML-order theorems are proved outright; faithfulness of the streaming transcoder / value path and the MessagePack and JSON codecs are proved in the C11 / C18 files; YAML and TOML surface syntax and float conversion are sampled hypotheses, not theorems.",
 }
 
 MANIFEST = {
-    "text": "Lean 4 theorems fix what the only permitted reordering is (a stable two-group partition: idempotent, key-preserving, order-preserving inside each group) and prove that the order xt's TOML output actually has equals it whenever no array contains a table (the exact exception is known finding K4, with a proved counterexample); the order model is tied to the code by an exhaustive-over-shapes correspondence. Value fidelity across the 16 pairs rests on third-party readers/writers, which enter as named hypotheses and are exercised on every run through xt's API with each target crate's own deserializer as the independent reader.",
+    "text": "Lean 4 theorems prove the fidelity statement end to end for the pairs JSON->MessagePack and MessagePack->JSON on a model composed of the JSON reader/writer, the MessagePack codec, the transcoder and rmp_serde's / serde_json's serializers (every input, both supply modes: same documents in the same order with the same denotation - entries in order, strings code point for code point, integers as integers; any width spelling gives the same output; what JSON cannot hold is refused without a complete wrong document), tied to the code by a byte-exact end-to-end correspondence. Further Lean 4 theorems fix what the only permitted reordering is (a stable two-group partition: idempotent, key-preserving, order-preserving inside each group) and prove that the order xt's TOML output actually has equals it whenever no array contains a table (the exact exception is known finding K4, with a proved counterexample); the order model is tied to the code by an exhaustive-over-shapes correspondence. Value fidelity across the 16 pairs rests on third-party readers/writers, which enter as named hypotheses and are exercised on every run through xt's API with each target crate's own deserializer as the independent reader.",
     "design_ref": "DESIGN.md section 7 C01",
     "note": "Trusted: Lean kernel (axioms propext/Classical.choice/Quot.sound), the correspondence harness, each format crate as an independent reader. Sampled, not proved: YAML/TOML surface syntax, float text conversion, third-party round trips.",
     "technique": "Lean 4 proof (mutual structural induction over the nested value type) + model/implementation correspondence + sampled third-party hypotheses",
